@@ -12,131 +12,50 @@
  */
 #ifndef BG_ABSTRACT_H
 #define BG_ABSTRACT_H
-
 void *malloc(__CPROVER_size_t);
+#include "abs_types.h"
 
-typedef unsigned int VertexIndex;
-typedef unsigned long bg_size;
-typedef _Bool bg_bool;
 
-#define BG_CAP ((bg_size)1 << 40) /* B-LEN: no list longer than 2^40 */
 
-enum {
-  BG_EXC_NONE = 0,
-  BG_OUT_OF_RANGE = 1,
-  BG_INVALID_ARGUMENT = 2,
-  BG_RUNTIME_ERROR = 3,
-  BG_OTHER_STD = 4
-};
-extern int bg_exc;
+
+
 
 /* ghost observation points: never assigned, never read by emitted code */
-extern VertexIndex G_P, G_Q;
 
-bg_size nondet_bg_size(void);
-VertexIndex nondet_vertex(void);
-bg_bool nondet_bg_bool(void);
-int nondet_int(void);
-double nondet_double(void);
-long nondet_long(void);
 
-#define BG_PRE(c, msg) __CPROVER_assert((c), "STL-PRE " msg)
-#define BG_ASSUME(c) __CPROVER_assume(c)
 
 /* ------------------------------------------------------------------ labels */
-typedef struct { int v; } VLabel;         /* opaque user label (A-PARAM)      */
-typedef struct { char unused; } NoLabel;  /* BaseGraph::NoLabel               */
-typedef unsigned int EdgeMultiplicity;
 /* A-REAL: weights as exact integers in the unbounded tier */
-typedef long bg_real;
 
-typedef struct { VertexIndex first, second; } bg_edge; /* std::pair<VI,VI> */
 
 /* ------------------------------------------------- std::list<VertexIndex> */
 /* Stored counters of one list relative to (G_P, G_Q, idx).  Every quantity a
    contract relates is STORED and updated by the same delta, never recomputed
    as a sum: SAT proves x-(x-k)==k at once but not re-associated 4-term sums
    (measured: 1 s vs > 800 s). */
-typedef struct {
-  bg_size len; /* list::size()                                   */
-  bg_size nP;  /* entries equal to G_P                           */
-  bg_size nQ;  /* entries equal to G_Q (0 when G_P == G_Q)       */
-  bg_size up;  /* entries >= idx   (half-edges an undirected graph counts) */
-} bg_cnt;
 
-typedef struct bg_list {
-  bg_cnt c;
-  bg_size idx;    /* row index this list sits at (0 for free-standing lists) */
-  bg_size bound;  /* every entry is < bound                                 */
-} bg_list;
 
-#define BG_UP_P(i) ((bg_size)G_P >= (i))
-#define BG_UP_Q(i) ((bg_size)G_Q >= (i))
 /* entries >= idx among the observed classes */
-#define BG_UPPQ(c, i) ((BG_UP_P(i) ? (c).nP : 0) + (BG_UP_Q(i) ? (c).nQ : 0))
 /* Partition axioms: true of the abstraction of EVERY concrete list (the
    classes partition its entries), hence assumed -- never proved -- after each
    shim operation and at load (A-STL / L2).  */
-#define BG_CNT_AX(c, i)                                                       \
-  ((c).len < BG_CAP && (c).nP <= (c).len && (c).nQ <= (c).len &&              \
-   (c).up <= (c).len && (G_P != G_Q || (c).nQ == 0))
 /* the relational part, assumed locally where an operation needs it */
-#define BG_CNT_AX_SUM(c, i)                                                   \
-  ((c).nP + (c).nQ <= (c).len && BG_UPPQ(c, i) <= (c).up &&                   \
-   (c).len - ((c).nP + (c).nQ) >= (c).up - BG_UPPQ(c, i))
-#define BG_LIST_WF(l)                                                         \
-  (BG_CNT_AX((l).c, (l).idx) && ((l).c.nP == 0 || G_P < (l).bound) &&         \
-   ((l).c.nQ == 0 || G_Q < (l).bound) && (l).bound <= ((bg_size)1 << 32))
-#define BG_LEN(c) ((c).len)
 
-struct bg_adj;
 /* One-entry cell for a row at an index other than G_P,G_Q (DESIGN §4.3).
    const operator[] loads a copy; non-const operator[] additionally records
    the owning vector so that every mutation of the cell updates the vector's
    rest sums by the same delta. */
-typedef struct {
-  bg_list row;
-  bg_bool valid;
-  struct bg_adj *owner;      /* non-null iff obtained through non-const access */
-  const struct bg_adj *from; /* vector the row was read from      */
-} bg_scratch_row_t;
-extern bg_scratch_row_t bg_scratch_row;
 
 /* class of a value relative to a list */
-#define BG_IS_P(x) ((x) == G_P)
-#define BG_IS_Q(x) ((x) != G_P && (x) == G_Q)
-#define BG_IS_O(x) ((x) != G_P && (x) != G_Q)
 
 /* cursor: suffix counters + value under the cursor (DESIGN §4.4) */
-typedef struct bg_it {
-  bg_cnt r;
-  VertexIndex cur;
-  bg_size idx;
-  bg_size bound;
-  bg_bool poisoned;
-} bg_it;
-#define BG_REM(it) ((it).r.len)
 
-#define BG_ROW_CHECK(l)                                                       \
-  __CPROVER_assert((l) != &bg_scratch_row.row || bg_scratch_row.valid,        \
-                   "ABSTRACTION stale reference to an unobserved row")
-#define BG_ROW_CHECK_MUT(l)                                                   \
-  __CPROVER_assert((l) != &bg_scratch_row.row ||                              \
-                       (bg_scratch_row.valid && bg_scratch_row.owner != 0),   \
-                   "ABSTRACTION mutation of a row obtained through const access")
 
 /* ghost: the vector whose operator[] was evaluated last (owner of observed rows) */
-extern struct bg_adj *bg_cur_adj;
 static inline void bg__rest_sub(bg_list *l, bg_size k, bg_size kup, bg_size kq, bg_size kp);
 static inline void bg__rest_add(bg_list *l, bg_bool isup, bg_bool isq, bg_bool isp);
 
 /* facts chosen at arrival: the value under the cursor belongs to a non-empty class */
-#define BG_IT_CUR_OK(it)                                                      \
-  ((it).r.len == 0 ||                                                         \
-   ((bg_size)(it).cur < (it).bound && (!BG_IS_P((it).cur) || (it).r.nP > 0) && \
-    (!BG_IS_Q((it).cur) || (it).r.nQ > 0) &&                                  \
-    (!((bg_size)(it).cur >= (it).idx) || (it).r.up > 0) &&                    \
-    (!((bg_size)(it).cur < (it).idx) || (it).r.len > (it).r.up)))
 static inline void bg__it_arrive(bg_it *it) {
   if (it->r.len > 0) {
     VertexIndex x = nondet_vertex();
@@ -347,53 +266,11 @@ static inline bg_it bg_find_u(bg_it first, bg_it last, const VertexIndex *xp) {
 }
 
 /* ------------------------------- std::vector<std::list<VertexIndex>> (adj) */
-typedef struct bg_adj {
-  bg_size n;            /* vector::size()                                     */
-  /* rows G_P and G_Q (rowQ empty when G_P == G_Q).  Separate objects, not
-     members: a pointer that may designate two members of ONE object makes
-     CBMC fall back to byte-level access of the whole graph (measured: 10x
-     formula size); pointers to distinct objects are case-split cheaply. */
-  bg_list *rowP, *rowQ;
-  /* ghost sums over all rows other than G_P, G_Q */
-  struct bg_rest {      /* (one assigns target; the row pointers are never assigned) */
-    bg_size total;      /* STORED sum of len over ALL rows (see bg_cnt)       */
-    bg_size totalUp;    /* STORED sum of up over ALL rows                     */
-    bg_size restLen;    /* sum of len                                         */
-    bg_size restUp;     /* sum of entries >= own row index                    */
-    bg_size restInQ;    /* number of entries equal to G_Q                     */
-    bg_size restInP;    /* number of entries equal to G_P                     */
-    bg_size restBound;  /* every entry of every such row is < restBound       */
-  } r;
-} bg_adj;
 
-#define BG_ADJ_TOTAL(a) ((a).r.total)
-#define BG_ADJ_TOTALUP(a) ((a).r.totalUp)
 /* in-degree of G_Q / G_P as the number of entries equal to it */
-#define BG_ADJ_INQ(a)                                                         \
-  ((G_P == G_Q ? (a).rowP->c.nP : (a).rowP->c.nQ + (a).rowQ->c.nQ) + (a).r.restInQ)
-#define BG_ADJ_INP(a) ((a).rowP->c.nP + (a).rowQ->c.nP + (a).r.restInP)
 
 /* rest sums are sums over the same rows: axioms of the abstraction */
-#define BG_REST_AX(a)                                                         \
-  ((a).r.restLen < BG_CAP && (a).r.restUp <= (a).r.restLen &&                 \
-   (a).r.restInQ <= (a).r.restLen && (a).r.restInP <= (a).r.restLen &&        \
-   (a).r.total < BG_CAP && (a).r.restLen <= (a).r.total &&                    \
-   (a).r.totalUp <= (a).r.total && (a).r.restUp <= (a).r.totalUp)
 /* a sum is at least each of its summands */
-#define BG_ADJ_ROWS_AX(a)                                                     \
-  ((a).rowP->c.len <= (a).r.total && (a).rowQ->c.len <= (a).r.total &&        \
-   (a).rowP->c.up <= (a).r.totalUp && (a).rowQ->c.up <= (a).r.totalUp)
-#define BG_ADJ_FRESH(a)                                                       \
-  (__CPROVER_is_fresh((a).rowP, sizeof(bg_list)) &&                           \
-   __CPROVER_is_fresh((a).rowQ, sizeof(bg_list)))
-#define BG_ADJ_WF(a)                                                          \
-  (BG_LIST_WF(*(a).rowP) && BG_LIST_WF(*(a).rowQ) && (a).rowP->idx == G_P &&   \
-   (a).rowQ->idx == G_Q && (a).r.restBound <= ((bg_size)1 << 32) &&                 \
-   BG_REST_AX(a) &&                                                           \
-   BG_ADJ_ROWS_AX(a) &&                                                       \
-   ((bg_size)G_P < (a).n || (a).rowP->c.len == 0) &&                          \
-   ((bg_size)G_Q < (a).n || (a).rowQ->c.len == 0) &&                          \
-   (G_P != G_Q || (a).rowQ->c.len == 0))
 
 static inline void bg_vec_list_u__ctor(bg_adj *a) {
   a->n = 0;
@@ -414,11 +291,6 @@ static inline bg_size bg_vec_list_u__size(const bg_adj *a) { return a->n; }
    of vector a.  Started/advanced by ghost statements of the spec files; kept
    exact by every row mutation; at F == a->n it equals the stored total (a
    definitional fact of the abstraction, assumed there). */
-typedef struct {
-  const struct bg_adj *a;
-  bg_size F, below, belowUp;
-} bg_ghost_frontier_t;
-extern bg_ghost_frontier_t bg_ghost_frontier;
 
 /* every mutation of a row updates the stored sums of its vector by the same delta */
 static inline struct bg_adj *bg__owner(bg_list *l) {
@@ -574,21 +446,6 @@ static inline void bg_vec_list_u__resize(bg_adj *a, bg_size k, const bg_list *v)
 
 /* --------------------------- std::unordered_map<Edge, L, hashEdge> (labels) */
 #define BG_DEFINE_MAP(TAG, T, EQ, ZERO)                                       \
-  typedef struct bg_map_##TAG {                                               \
-    struct {                                                                  \
-      bg_bool hasPQ, hasQP; /* keys (G_P,G_Q), (G_Q,G_P); QP unused if P==Q */\
-      bg_size restCount;    /* entries under other keys                   */  \
-    } s;                                                                      \
-    T *valPQ, *valQP;     /* separate objects, see bg_adj                  */ \
-  } bg_map_##TAG;                                                             \
-  typedef struct {                                                            \
-    bg_bool valid, has;                                                       \
-    T val;                                                                    \
-    bg_edge key;                                                              \
-    const bg_map_##TAG *from;                                                 \
-  } bg_scratch_val_##TAG##_t;                                                 \
-  extern bg_scratch_val_##TAG##_t bg_scratch_val_##TAG;                       \
-  extern T bg_dummy_##TAG;                                                    \
   static inline void bg_map_##TAG##__ctor(bg_map_##TAG *m) {                  \
     m->s.hasPQ = m->s.hasQP = 0;                                                  \
     m->valPQ = (T *)malloc(sizeof(T));                                        \
@@ -702,27 +559,13 @@ static inline void bg_vec_list_u__resize(bg_adj *a, bg_size k, const bg_list *v)
     return nondet_bg_bool();                                                  \
   }
 
-#define BG_EQ_VLABEL(a, b) ((a).v == (b).v)
-#define BG_EQ_SCALAR(a, b) ((a) == (b))
-#define BG_EQ_TRUE(a, b) 1
-#define BG_ZERO_STRUCT {0}
 BG_DEFINE_MAP(VLabel, VLabel, BG_EQ_VLABEL, BG_ZERO_STRUCT)
 BG_DEFINE_MAP(NoLabel, NoLabel, BG_EQ_TRUE, BG_ZERO_STRUCT)
 BG_DEFINE_MAP(uint, EdgeMultiplicity, BG_EQ_SCALAR, 0)
 BG_DEFINE_MAP(real, bg_real, BG_EQ_SCALAR, 0)
 
 /* ---------------------------------------------------------------- misc */
-#define BG_RETURN_UNSPECIFIED(T)                                              \
-  do {                                                                        \
-    T bg_unspec;                                                              \
-    __CPROVER_havoc_object(&bg_unspec);                                       \
-    return bg_unspec;                                                         \
-  } while (0)
 
-extern const VLabel bg_zero_VLabel;
-extern const NoLabel bg_zero_NoLabel;
-extern const EdgeMultiplicity bg_zero_uint;
-extern const bg_real bg_zero_real;
 static inline bg_bool bg_label_eq_VLabel(VLabel a, VLabel b) { return a.v == b.v; }
 static inline bg_bool bg_label_eq_NoLabel(NoLabel a, NoLabel b) { return 1; }
 static inline const VertexIndex *bg_max_u(const VertexIndex *a, const VertexIndex *b) {
@@ -730,7 +573,6 @@ static inline const VertexIndex *bg_max_u(const VertexIndex *a, const VertexInde
 }
 
 /* -------------------------------------------- std::set<VertexIndex> (seen) */
-typedef struct { bg_bool hasP, hasQ; bg_size restCount; } bg_set_u;
 static inline void bg_set_u__ctor(bg_set_u *s) { s->hasP = s->hasQ = 0; s->restCount = 0; }
 static inline bg_size bg_set_u__count(const bg_set_u *s, const VertexIndex *xp) {
   VertexIndex x = *xp;
@@ -748,8 +590,6 @@ static inline void bg_set_u__insert(bg_set_u *s, const VertexIndex *xp) {
 static inline void bg_set_u__clear(bg_set_u *s) { s->hasP = s->hasQ = 0; s->restCount = 0; }
 
 /* --------------------------------------------- std::vector<size_t> results */
-typedef struct { bg_size n; bg_size vP, vQ; } bg_vec_sz;
-extern bg_size bg_scratch_sz;
 static inline void bg_vec_sz__ctor(bg_vec_sz *v) { v->n = 0; v->vP = v->vQ = 0; }
 static inline void bg_vec_sz__ctor_1(bg_vec_sz *v, bg_size n) { v->n = n; v->vP = v->vQ = 0; }
 static inline void bg_vec_sz__ctor_2(bg_vec_sz *v, bg_size n, const bg_size *x) {
@@ -771,8 +611,6 @@ static inline const bg_size *bg_vec_sz__index_c(const bg_vec_sz *v, bg_size i) {
   return &bg_scratch_sz;
 }
 /* vector<vector<size_t>> : rows G_P and G_Q observed */
-typedef struct { bg_size n; bg_vec_sz rowP, rowQ; bg_size m; } bg_mat_sz;
-extern bg_vec_sz bg_scratch_vec_sz;
 static inline void bg_mat_sz__ctor(bg_mat_sz *a) { a->n = 0; a->m = 0; bg_vec_sz__ctor(&a->rowP); bg_vec_sz__ctor(&a->rowQ); }
 static inline void bg_mat_sz__ctor_2(bg_mat_sz *a, bg_size n, const bg_vec_sz *row) {
   a->n = n; a->m = row->n; a->rowP = *row; a->rowQ = *row;
@@ -791,21 +629,9 @@ static inline bg_vec_sz *bg_mat_sz__index(bg_mat_sz *a, bg_size i) {
   return &bg_scratch_vec_sz;
 }
 
-#define BG_SCRATCH_CLEAN                                                      \
-  (!bg_scratch_row.valid && bg_scratch_row.owner == 0 && bg_cur_adj == 0 &&   \
-   bg_ghost_frontier.a == 0)
-#define BG_MAP_FRESH(m)                                                       \
-  (__CPROVER_is_fresh((m).valPQ, sizeof(*(m).valPQ)) &&                       \
-   __CPROVER_is_fresh((m).valQP, sizeof(*(m).valQP)))
-#ifndef BG_L
-#define BG_L NoLabel
-#endif
-#define BG_CAT_(a, b) a##b
-#define BG_CAT(a, b) BG_CAT_(a, b)
 static inline void bg_ghost_reset_all(void) {
   bg_ghost_scratch_reset();
   bg_ghost_frontier.a = 0; /* a callee may change rows below the frontier */
   BG_CAT(bg_scratch_val_, BG_L).valid = 0;
 }
-
 #endif
